@@ -6,9 +6,113 @@ import GluonModel.ExprGrammar
 namespace GluonModel.ExprGrammar.Proofs
 open GluonModel.ExprGrammar
 
-/-! ### Unfolding lemmas (one per grammar alternative) -/
+/-! ### The productions as inference rules about the parser functions -/
 
-theorem pExpr_of_atomStart (f : Nat) (ts : List Tok) (h : startsAtomic ts = true) :
+def noOp : List Tok → Bool
+  | ⟨.op _, _⟩ :: _ => false
+  | _ => true
+
+def noComma : List Tok → Bool
+  | ⟨.comma, _⟩ :: _ => false
+  | _ => true
+
+def noRp : List Tok → Bool
+  | ⟨.rp, _⟩ :: _ => false
+  | _ => true
+
+def noIdent : List Tok → Bool
+  | ⟨.ident _, _⟩ :: _ => false
+  | _ => true
+
+theorem r_ident (f n sp r) : pAtomic (f + 1) (⟨.ident n, sp⟩ :: r) = some (.ident n sp, r) := by
+  simp [pAtomic]
+theorem r_int (f n sp r) : pAtomic (f + 1) (⟨.int n, sp⟩ :: r) = some (.int n sp, r) := by
+  simp [pAtomic]
+theorem r_str (f n sp r) : pAtomic (f + 1) (⟨.str n, sp⟩ :: r) = some (.str n sp, r) := by
+  simp [pAtomic]
+theorem r_unit (f l rr r) : pAtomic (f + 1) (⟨.lp, l⟩ :: ⟨.rp, rr⟩ :: r) = some (.unit l rr, r) := by
+  simp [pAtomic]
+
+theorem r_paren (f l r b rr r') (h0 : noRp r = true)
+    (h : pBody f r = some (b, ⟨.rp, rr⟩ :: r')) :
+    pAtomic (f + 1) (⟨.lp, l⟩ :: r) = some (.paren l b rr, r') := by
+  match r, h0 with
+  | [], _ => simp [pAtomic, h]
+  | ⟨t, s⟩ :: r1, h0 =>
+    cases t <;> simp [noRp] at h0 <;> simp [pAtomic, h]
+
+theorem r_body_one (f ts a r) (h : pExpr f ts = some (a, r)) (hc : noComma r = true) :
+    pBody (f + 1) ts = some (a, r) := by
+  match r, hc with
+  | [], _ => simp [pBody, h]
+  | ⟨t, s⟩ :: r1, hc => cases t <;> simp [noComma] at hc <;> simp [pBody, h]
+
+theorem r_body_comma (f ts a c r b r') (h : pExpr f ts = some (a, ⟨.comma, c⟩ :: r))
+    (h2 : pBody f r = some (b, r')) :
+    pBody (f + 1) ts = some (.comma a c b, r') := by
+  simp [pBody, h, h2]
+
+theorem r_args_stop (f acc ts) (h : startsAtomic ts = false) :
+    pArgs (f + 1) acc ts = some (acc, ts) := by
+  simp [pArgs, h]
+
+theorem r_args_step (f acc ts a r) (h : startsAtomic ts = true)
+    (h2 : pAtomic f ts = some (a, r)) :
+    pArgs (f + 1) acc ts = pArgs f (.app acc a) r := by
+  simp [pArgs, h, h2]
+
+theorem r_app (f ts a r) (h : pAtomic f ts = some (a, r)) :
+    pApp (f + 1) ts = pArgs f a r := by
+  simp [pApp, h]
+
+theorem r_lam (f bs r a as ar r2 b r3) (h : takeArgs r = (a :: as, ⟨.arrow, ar⟩ :: r2))
+    (h2 : pExpr f r2 = some (b, r3)) :
+    pInfix (f + 1) (⟨.lam, bs⟩ :: r) = some (.lam bs (a :: as) ar b, r3) := by
+  simp [pInfix, h, h2]
+
+theorem r_infix_op (f ts l o os r rhs r') (h0 : startsAtomic ts = true)
+    (h : pApp f ts = some (l, ⟨.op o, os⟩ :: r)) (h2 : pInfix f r = some (rhs, r')) :
+    pInfix (f + 1) ts = some (.binop l o os rhs, r') := by
+  match ts, h0 with
+  | ⟨.ident _, _⟩ :: _, _ => simp [pInfix, h, h2]
+  | ⟨.int _, _⟩ :: _, _ => simp [pInfix, h, h2]
+  | ⟨.str _, _⟩ :: _, _ => simp [pInfix, h, h2]
+  | ⟨.lp, _⟩ :: _, _ => simp [pInfix, h, h2]
+
+theorem r_infix_app (f ts l r) (h0 : startsAtomic ts = true)
+    (h : pApp f ts = some (l, r)) (hn : noOp r = true) :
+    pInfix (f + 1) ts = some (l, r) := by
+  have key : (match (some (l, r) : Option (C × List Tok)) with
+      | some (l, ⟨.op o, os⟩ :: r) =>
+        match pInfix f r with
+        | some (rhs, r') => some (C.binop l o os rhs, r')
+        | none => none
+      | res => res) = some (l, r) := by
+    match r, hn with
+    | [], _ => rfl
+    | ⟨t, s⟩ :: r1, hn => cases t <;> simp [noOp] at hn <;> rfl
+  match ts, h0 with
+  | ⟨.ident _, _⟩ :: _, _ => simp only [pInfix, h]; exact key
+  | ⟨.int _, _⟩ :: _, _ => simp only [pInfix, h]; exact key
+  | ⟨.str _, _⟩ :: _, _ => simp only [pInfix, h]; exact key
+  | ⟨.lp, _⟩ :: _, _ => simp only [pInfix, h]; exact key
+
+theorem r_if (f i r c t r1 a e r2 b r3) (h1 : pExpr f r = some (c, ⟨.kThen, t⟩ :: r1))
+    (h2 : pExpr f r1 = some (a, ⟨.kElse, e⟩ :: r2)) (h3 : pExpr f r2 = some (b, r3)) :
+    pExpr (f + 1) (⟨.kIf, i⟩ :: r) = some (.ite i c t a e b, r3) := by
+  simp [pExpr, h1, h2, h3]
+
+theorem r_let (f l x xs r args q r2 rhs n r3 body r4)
+    (h0 : takeArgs r = (args, ⟨.eq, q⟩ :: r2))
+    (h1 : pExpr f r2 = some (rhs, ⟨.kIn, n⟩ :: r3)) (h2 : pExpr f r3 = some (body, r4)) :
+    pExpr (f + 1) (⟨.kLet, l⟩ :: ⟨.ident x, xs⟩ :: r) = some (.letIn l (x, xs) args q rhs n body, r4) := by
+  simp [pExpr, h0, h1, h2]
+
+theorem r_block (f s0 r e s r') (h : pExpr f r = some (e, ⟨.cb, s⟩ :: r')) :
+    pExpr (f + 1) (⟨.ob, s0⟩ :: r) = some (e, r') := by
+  simp [pExpr, h]
+
+theorem r_expr_atom (f : Nat) (ts : List Tok) (h : startsAtomic ts = true) :
     pExpr (f + 1) ts = pInfix f ts := by
   match ts, h with
   | ⟨.ident _, _⟩ :: _, _ => simp [pExpr]
@@ -16,22 +120,119 @@ theorem pExpr_of_atomStart (f : Nat) (ts : List Tok) (h : startsAtomic ts = true
   | ⟨.str _, _⟩ :: _, _ => simp [pExpr]
   | ⟨.lp, _⟩ :: _, _ => simp [pExpr]
 
-theorem pExpr_lam (f : Nat) (bs : Span) (r : List Tok) :
+theorem r_expr_lam (f : Nat) (bs : Span) (r : List Tok) :
     pExpr (f + 1) (⟨.lam, bs⟩ :: r) = pInfix f (⟨.lam, bs⟩ :: r) := by
   simp [pExpr]
 
-theorem pInfix_of_atomStart (f : Nat) (ts : List Tok) (h : startsAtomic ts = true) :
-    pInfix (f + 1) ts =
-      match pApp f ts with
-      | some (l, ⟨.op o, os⟩ :: r) =>
-        match pInfix f r with
-        | some (rhs, r') => some (.infix l o os rhs, r')
-        | none => none
-      | res => res := by
-  match ts, h with
-  | ⟨.ident _, _⟩ :: _, _ => simp [pInfix]
-  | ⟨.int _, _⟩ :: _, _ => simp [pInfix]
-  | ⟨.str _, _⟩ :: _, _ => simp [pInfix]
-  | ⟨.lp, _⟩ :: _, _ => simp [pInfix]
+theorem takeArgs_argToks (args : List Arg) (r : List Tok) (h : noIdent r = true) :
+    takeArgs (argToks args ++ r) = (args, r) := by
+  induction args with
+  | nil =>
+    match r, h with
+    | [], _ => simp [argToks, takeArgs]
+    | ⟨t, s⟩ :: r1, h => cases t <;> simp [noIdent] at h <;> simp [argToks, takeArgs]
+  | cons a as ih =>
+    obtain ⟨x, sp⟩ := a
+    simp [argToks, takeArgs, ih]
+
+/-! ### First tokens of a printed tree -/
+
+theorem startsAtomic_toks (c : C) (rest : List Tok) (hl : Legal c) (h : lvl c ≤ 1) :
+    startsAtomic (toks c ++ rest) = true := by
+  induction c generalizing rest with
+  | ident | int | str | unit | paren => simp [toks, startsAtomic]
+  | app f a ihf _ =>
+    simp only [Legal] at hl
+    simp only [toks, List.append_assoc]
+    exact ihf _ hl.1 hl.2.2.1
+  | comma | binop | lam | ite | letIn => simp [lvl] at h
+
+theorem noRp_toks (c : C) (rest : List Tok) (hl : Legal c) : noRp (toks c ++ rest) = true := by
+  induction c generalizing rest with
+  | ident | int | str | unit | paren | lam | ite | letIn => simp [toks, noRp]
+  | app f a ihf _ =>
+    simp only [Legal] at hl
+    simp only [toks, List.append_assoc]
+    exact ihf _ hl.1
+  | comma a _ b iha _ =>
+    simp only [Legal] at hl
+    simp only [toks, List.append_assoc]
+    exact iha _ hl.1
+  | binop l _ _ r ihl _ =>
+    simp only [Legal] at hl
+    simp only [toks, List.append_assoc]
+    exact ihl _ hl.1
+
+theorem size_pos (c : C) : 1 ≤ size c := by
+  cases c <;> simp [size]
+
+/-! ### The parser inverts the printer: one claim per grammar level -/
+
+def A (c : C) : Prop := lvl c = 0 → ∀ f rest, 10 * size c ≤ f + 8 →
+  pAtomic f (toks c ++ rest) = some (c, rest)
+def B (c : C) : Prop := lvl c ≤ 1 → ∀ f rest, 10 * size c ≤ f + 7 →
+  ∃ g, f ≤ g + size c ∧ pApp f (toks c ++ rest) = pArgs g c rest
+def C1 (c : C) : Prop := lvl c ≤ 1 → ∀ f rest, 10 * size c ≤ f + 7 → startsAtomic rest = false →
+  pApp f (toks c ++ rest) = some (c, rest)
+def C2 (c : C) : Prop := lvl c ≤ 2 → ∀ f rest, 10 * size c ≤ f + 6 → startsAtomic rest = false →
+  noOp rest = true → pInfix f (toks c ++ rest) = some (c, rest)
+def C3 (c : C) : Prop := lvl c ≤ 3 → ∀ f rest, 10 * size c ≤ f + 5 → startsAtomic rest = false →
+  noOp rest = true → pExpr f (toks c ++ rest) = some (c, rest)
+def C4 (c : C) : Prop := ∀ f rest, 10 * size c ≤ f + 4 → startsAtomic rest = false →
+  noOp rest = true → noComma rest = true → pBody f (toks c ++ rest) = some (c, rest)
+
+structure All (c : C) : Prop where
+  a : A c
+  b : B c
+  c1 : C1 c
+  c2 : C2 c
+  c3 : C3 c
+  c4 : C4 c
+
+abbrev IH (c : C) : Prop := ∀ c', size c' < size c → Legal c' → All c'
+
+theorem a_of (c : C) (ih : IH c) (hl : Legal c) : A c := by
+  intro h0 f rest hf
+  obtain ⟨f, rfl⟩ : ∃ f', f = f' + 1 := ⟨f - 1, by have := size_pos c; omega⟩
+  cases c with
+  | ident n sp => simp [toks, r_ident]
+  | int n sp => simp [toks, r_int]
+  | str n sp => simp [toks, r_str]
+  | unit l r => simp [toks, r_unit]
+  | paren l b r =>
+    simp only [Legal] at hl
+    simp only [toks, List.cons_append, List.append_assoc]
+    apply r_paren
+    · exact noRp_toks b _ hl
+    · have := (ih b (by simp [size]) hl).c4
+      simp only [size] at hf
+      exact this f _ (by omega) (by simp [startsAtomic]) (by simp [noOp]) (by simp [noComma])
+  | comma | app | binop | lam | ite | letIn => simp [lvl] at h0
+
+theorem b_of (c : C) (ih : IH c) (hl : Legal c) (ha : A c) : B c := by
+  intro h1 f rest hf
+  cases c with
+  | app c' a =>
+    simp only [Legal] at hl
+    simp only [size] at hf
+    obtain ⟨g', hg', e⟩ := (ih c' (by simp [size]; omega) hl.1).b hl.2.2.1 f (toks a ++ rest) (by omega)
+    obtain ⟨g, rfl⟩ : ∃ g, g' = g + 1 := ⟨g' - 1, by have := size_pos a; omega⟩
+    refine ⟨g, by simp only [size]; omega, ?_⟩
+    simp only [toks, List.append_assoc, e]
+    apply r_args_step
+    · exact startsAtomic_toks a rest hl.2.1 (by omega)
+    · exact (ih a (by simp [size]; omega) hl.2.1).a hl.2.2.2 g rest (by omega)
+  | comma | binop | lam | ite | letIn => simp [lvl] at h1
+  | ident | int | str | unit | paren =>
+    obtain ⟨f, rfl⟩ : ∃ f', f = f' + 1 := ⟨f - 1, by omega⟩
+    refine ⟨f, by have := size_pos ‹C›; first | omega | (simp [size]; omega), ?_⟩
+    exact r_app _ _ _ _ (ha (by simp [lvl]) f rest (by omega))
+
+theorem c1_of (c : C) (hb : B c) : C1 c := by
+  intro h1 f rest hf hs
+  obtain ⟨g, hg, e⟩ := hb h1 f rest hf
+  obtain ⟨g, rfl⟩ : ∃ g', g = g' + 1 := ⟨g - 1, by have := size_pos c; omega⟩
+  rw [e]
+  exact r_args_stop _ _ _ hs
 
 end GluonModel.ExprGrammar.Proofs
